@@ -16,6 +16,9 @@ pub const W9A: &str = "id: w9a\nsteps:\n  - id: s1\n    acts:\n      - uses: act
 /// the same with the empty catch on the step around the block
 pub const W9B: &str = "id: w9b\nsteps:\n  - id: s1\n    catches:\n      - steps: []\n    acts:\n      - uses: acts.core.block\n        key: blk\n        params:\n          mode: parallel\n          acts:\n            - uses: acts.core.irq\n              key: x\n            - uses: acts.core.irq\n              key: y\n  - id: s2\n    acts:\n      - uses: acts.core.irq\n        key: z\n";
 /// an act whose step is followed by a step that fans out into two parallel branches (for cancel)
+/// an interrupt act with a timeout rule whose steps hold an interrupt of their own; the scenario's prelude
+/// answers a1 and lets the rule fire, so that the histories start with `at` open beneath the open act a2
+pub const WT: &str = "id: wt\nsteps:\n  - id: s1\n    acts:\n      - uses: acts.core.irq\n        key: a1\n  - id: s2\n    acts:\n      - uses: acts.core.irq\n        key: a2\n        timeout:\n          - on: 1s\n            steps:\n              - id: ts1\n                acts:\n                  - uses: acts.core.irq\n                    key: at\n  - id: s3\n";
 pub const W10: &str = "id: w10\nsteps:\n  - id: s1\n    acts:\n      - uses: acts.core.irq\n        key: a1\n  - id: s2\n    branches:\n      - id: b1\n        if: \"true\"\n        steps:\n          - id: s21\n            acts:\n              - uses: acts.core.irq\n                key: a2\n      - id: b2\n        if: \"true\"\n        steps:\n          - id: s22\n            acts:\n              - uses: acts.core.irq\n                key: a3\n  - id: s3\n";
 /// branches without steps (a taken one, a needs branch and an else branch) before a step with an open act
 pub const W8: &str = "id: w8\nsteps:\n  - id: s1\n    branches:\n      - id: b0\n        else: true\n      - id: b1\n        if: \"true\"\n        steps:\n          - id: s11\n            acts:\n              - uses: acts.core.irq\n                key: a1\n      - id: b2\n        needs: [b1]\n      - id: b3\n        if: \"true\"\n  - id: s2\n    acts:\n      - uses: acts.core.irq\n        key: a2\n";
@@ -159,6 +162,14 @@ fn scenarios_of(prop: &str, tier: Tier) -> Vec<HScn> {
             }
             if !q {
                 v.push(hscn("par", W2, false, full_cfg(2), Some(3), 48));
+            }
+            // a fired timeout rule: its step and interrupt are open beneath the open act when the history begins
+            for keep in [false, true] {
+                let mut c = full_cfg(2);
+                c.terminal_targets = true;
+                let mut h = hscn("timed", WT, keep, c, Some(if q { 0 } else { 1 }), 16);
+                h.scn.prelude = vec![("complete".into(), "a1".into()), ("tick".into(), "1100".into())];
+                v.push(h);
             }
             // a backward `next` jump out of a guarded branch (one round of rework)
             for keep in [false, true] {
